@@ -367,7 +367,8 @@ class RefAsm:
                 raise Unspec("too many iterations for the reference")
             for v in range(lo, hi):
                 s = self.new_scope(scope, "for")
-                self.define(s, st[1], v)
+                # the loop variable is bound by the symbol pass: not an expansion-time value, not known to the label pass
+                self.define(s, st[1], Deferred(rx.num(v) if v >= 0 else ("u", "-", rx.num(-v)), s))
                 self.run_body(st[4], s)
         elif k == "incbin":
             content = self.files[st[1]]
@@ -492,6 +493,14 @@ class RefAsm:
         self.eq_limit = None
         # 2. assumptions made during layout must hold in the final environment
         for e, scope, v, what in self.assumptions:
+            # a width/position may only be inferred from constants and labels: if a name's innermost definition turns out to be
+            # a symbol-pass value (`=`, deferred parameter, loop variable) the label pass could not have known it
+            for n in rx.names(e):
+                for sc in scope.chain():
+                    if n in sc.defs:
+                        if isinstance(sc.defs[n], Deferred):
+                            raise Unspec("a value used for sizing/positioning is only defined by the symbol pass")
+                        break
             try:
                 fv = self.final_eval(e, scope)
                 if (fv != v) if what == "value" else (isa.natural_width(fv) != isa.natural_width(v)):
